@@ -1,8 +1,8 @@
 (* C11 -- Binary-to-text and wire codecs are exact inverses on their whole domain.
    Statements only; every proof is [exact <lemma>] with Print Assumptions beneath. *)
-From Coq Require Import NArith List.
-From BU Require Import Base.Exn Base.Bytes Gen.Consts Model.Base58 Model.Base58Xmr Model.Codecs.
-From BU Require Lemmas.Base58 Lemmas.ConstsOk Lemmas.XmrConstsOk.
+From Coq Require Import NArith ZArith List.
+From BU Require Import Base.Exn Base.Bytes Gen.Consts Model.Base58 Model.Base58Xmr Model.Codecs Model.IntBytes.
+From BU Require Lemmas.Base58 Lemmas.ConstsOk Lemmas.XmrConstsOk Lemmas.IntBytes.
 Import ListNotations.
 Open Scope N_scope.
 
@@ -135,3 +135,82 @@ Theorem xmr_block_canonical_iff : forall s d e dec v,
   (Codecs.xmr_pad e (Codecs.xmr_b58enc (Base58Xmr.unpad d dec)) = s <-> v < 256 ^ N.of_nat d).
 Proof. exact XmrConstsOk.xmr_block_canonical_iff. Qed.
 Print Assumptions xmr_block_canonical_iff.
+
+(* ------------------------------------------------------------------ IntegerUtils / BytesUtils *)
+
+(* GetBytesNumber n is the least w >= 1 with n < 256^w *)
+Theorem bytes_number_spec : forall n, let w := IntBytes.bytes_number (Z.of_N n) in
+  1 <= w /\ n < 256 ^ w /\ (1 < w -> 256 ^ (w - 1) <= n).
+Proof. exact Lemmas.IntBytes.bytes_number_spec. Qed.
+Print Assumptions bytes_number_spec.
+
+(* int_bytes_roundtrip, in its four parts.  ToBytes with automatic (minimal) width, both endiannesses: *)
+Theorem int_bytes_roundtrip_auto : forall n big,
+  exists b, IntBytes.to_bytes (Z.of_N n) 0 big = Ok b /\ IntBytes.to_integer b big = n /\
+            length b = N.to_nat (IntBytes.bytes_number (Z.of_N n)) /\ bytes_ok b.
+Proof. exact Lemmas.IntBytes.to_bytes_auto. Qed.
+Print Assumptions int_bytes_roundtrip_auto.
+
+(* fixed width w >= 1: exactly the values below 256^w are encoded (w bytes, value preserved) ... *)
+Theorem int_bytes_roundtrip_fixed : forall n w big, w <> 0 -> n < 256 ^ w ->
+  exists b, IntBytes.to_bytes (Z.of_N n) w big = Ok b /\ IntBytes.to_integer b big = n /\
+            length b = N.to_nat w /\ bytes_ok b.
+Proof. exact Lemmas.IntBytes.to_bytes_fixed. Qed.
+Print Assumptions int_bytes_roundtrip_fixed.
+
+Example int_bytes_roundtrip_fixed_ex : exists b, IntBytes.to_bytes 65535%Z 2 false = Ok b.
+Proof. destruct (Lemmas.IntBytes.to_bytes_fixed 65535 2 false) as (b & H & _); [discriminate|reflexivity|]. exists b; exact H. Qed.
+Print Assumptions int_bytes_roundtrip_fixed_ex.
+
+(* ... and everything else is an OverflowError (the guard of int.to_bytes) *)
+Theorem int_bytes_overflow : forall n w big, w <> 0 -> 256 ^ w <= n ->
+  IntBytes.to_bytes (Z.of_N n) w big = Err OverflowError.
+Proof. exact Lemmas.IntBytes.to_bytes_overflow. Qed.
+Print Assumptions int_bytes_overflow.
+
+Theorem int_bytes_negative : forall v w big, (v < 0)%Z -> IntBytes.to_bytes v w big = Err OverflowError.
+Proof. exact Lemmas.IntBytes.to_bytes_negative. Qed.
+Print Assumptions int_bytes_negative.
+
+(* bytes -> integer -> bytes at the same width; the empty string is excluded because width 0 means
+   "automatic" in ToBytes: ToBytes(ToInteger(b""), 0) = b"\x00" *)
+Theorem bytes_int_roundtrip : forall b big, bytes_ok b -> b <> [] ->
+  IntBytes.to_bytes (Z.of_N (IntBytes.to_integer b big)) (N.of_nat (length b)) big = Ok b.
+Proof. exact Lemmas.IntBytes.to_bytes_to_integer. Qed.
+Print Assumptions bytes_int_roundtrip.
+
+Example bytes_int_roundtrip_empty_refuted :
+  IntBytes.to_bytes (Z.of_N (IntBytes.to_integer [] true)) 0 true = Ok [0].
+Proof. exact Lemmas.IntBytes.to_bytes_empty_refuted. Qed.
+Print Assumptions bytes_int_roundtrip_empty_refuted.
+
+(* binary strings: int(bin(n)[2:].zfill(pad), 2) = n with CPython's full int() grammar in the model *)
+Theorem binstr_roundtrip : forall n pad,
+  IntBytes.int_from_binstr (IntBytes.int_to_binstr n pad) = Ok (Z.of_N n).
+Proof. exact Lemmas.IntBytes.int_binstr_roundtrip. Qed.
+Print Assumptions binstr_roundtrip.
+
+(* BytesUtils.FromBinaryStr(BytesUtils.ToBinaryStr(b, p), 2*len(b)) = b (second argument: hex digits) *)
+Theorem bytes_binstr_roundtrip : forall b p, bytes_ok b -> b <> [] ->
+  IntBytes.bytes_from_binstr (IntBytes.bytes_to_binstr b p) (2 * length b) = Ok b.
+Proof. exact Lemmas.IntBytes.bytes_binstr_roundtrip. Qed.
+Print Assumptions bytes_binstr_roundtrip.
+
+(* hex *)
+Theorem hex_roundtrip : forall b, bytes_ok b ->
+  IntBytes.from_hex_string (IntBytes.to_hex_string b) = Ok b.
+Proof. exact Lemmas.IntBytes.unhexlify_hexlify. Qed.
+Print Assumptions hex_roundtrip.
+
+(* canonicity up to letter case, and exact acceptance / error class of FromHexString *)
+Theorem hex_decode_canonical : forall s b, IntBytes.from_hex_string s = Ok b ->
+  bytes_ok b /\ IntBytes.to_hex_string b = map Lemmas.IntBytes.hex_lower s /\ length s = (2 * length b)%nat.
+Proof. exact Lemmas.IntBytes.unhexlify_ok_spec. Qed.
+Print Assumptions hex_decode_canonical.
+
+Theorem hex_decode_total : forall s,
+  ((exists b, IntBytes.from_hex_string s = Ok b) <->
+   (Nat.even (length s) = true /\ forallb Lemmas.IntBytes.is_hex s = true)) /\
+  (forall e, IntBytes.from_hex_string s = Err e -> e = ValueError).
+Proof. intros s. split; [exact (Lemmas.IntBytes.unhexlify_ok_iff s)|exact (Lemmas.IntBytes.unhexlify_err s)]. Qed.
+Print Assumptions hex_decode_total.
